@@ -21,12 +21,16 @@
      work      = { written += acc.len; builder.append(&acc); builder.flush() } -> Ok(written) | Err
    FsyncCoalescingCore  (InputAccumulator = u64):
      can_batch as in the source;  batch = max;
-     work      = { if synced >= acc { true } else { ret = fdatasync(fd); if ret { synced = acc }; ret } }
+     work      = { if synced >= acc { true } else if failed { false }
+                   else { ret = fdatasync(fd); if ret { synced = acc } else { failed = true }; ret } }
    Ghost (never read by the program): the accumulators are kept as the lists of the inputs merged
    (the WriteBatch buffer is the concatenation of their encodings, the u64 is their maximum); each
    core logs its work calls; F inputs carry the W index of the call they belong to; the outcome of
    each fdatasync comes from an arbitrary list of booleans (`cf_oracle`; exhausted = success).
-   A successful fdatasync makes durable every byte the builder has flushed so far: `k_durable`. *)
+   A successful fdatasync makes durable every byte the builder has flushed so far: `k_durable`.
+   Since the core never calls fdatasync again after one failed, every successful call is one that no
+   failed call preceded: this is the plain meaning of fdatasync, not the Linux behaviour after an
+   error (where the failed pages are dropped and a later call succeeds without them). *)
 From Coq Require Import NArith List Bool Arith.
 From Blue Require Import Gen.Const_Log Log.ModelWire Log.Model Log.ModelConc.
 From Blue Require Import Sync42.ModelLru Sync42.ModelWaitList Sync42.ModelWcq.
@@ -61,7 +65,7 @@ Section ConcWL.
   Definition inpF := (nat * N)%type.                   (* (W index of the call [ghost], written) *)
   Definition accF := list inpF.                        (* ghost; the u64 accumulator is accval *)
   Record lf := mkLf { lf_items : list inpF; lf_n : nat; lf_acc : N; lf_out : bool; lf_sync : bool }.
-  Record cf := mkCf { cf_synced : N; cf_oracle : list bool; cf_log : list lf }.
+  Record cf := mkCf { cf_synced : N; cf_failed : bool; cf_oracle : list bool; cf_log : list lf }.
 
   Definition accval (acc : accF) : N := fold_left N.max (map snd acc) 0%N.
   Definition can_batchF (cs : cf) (acc : accF) (i : inpF) : bool :=
@@ -70,12 +74,15 @@ Section ConcWL.
   Definition workF (cs : cf) (n : nat) (acc : accF) : cf * list bool :=
     let a := accval acc in
     if (a <=? cf_synced cs)%N then
-      (mkCf (cf_synced cs) (cf_oracle cs) (cf_log cs ++ [mkLf acc n a true false]), repeat true n)
+      (mkCf (cf_synced cs) (cf_failed cs) (cf_oracle cs) (cf_log cs ++ [mkLf acc n a true false]), repeat true n)
+    else if cf_failed cs then
+      (* an earlier fdatasync failed: nothing past `synced` is reported durable again (fix be5f137) *)
+      (mkCf (cf_synced cs) true (cf_oracle cs) (cf_log cs ++ [mkLf acc n a false false]), repeat false n)
     else
       let ret := match cf_oracle cs with b :: _ => b | [] => true end in
       let orc := match cf_oracle cs with _ :: r => r | [] => [] end in
-      (mkCf (if ret then a else cf_synced cs) orc (cf_log cs ++ [mkLf acc n a ret ret]), repeat ret n).
-  Definition cf0 (oracle : list bool) : cf := mkCf 0%N oracle [].
+      (mkCf (if ret then a else cf_synced cs) (negb ret) orc (cf_log cs ++ [mkLf acc n a ret ret]), repeat ret n).
+  Definition cf0 (oracle : list bool) : cf := mkCf 0%N false oracle [].
 
   (* ------------------------------------------------------------------ the two queues, glued *)
   Definition gW := gstate inpW outW accW cw.
